@@ -584,6 +584,17 @@ def nz_formula(e, env=None):
         if env is not None:
             sp = env.resolve_ref_path(sp)
         return ("nonempty", sp)
+    # (c ? x : 0) != 0   is   c && x != 0
+    ue = unwrap_all_casts(e)
+    if isinstance(ue, dict) and ue.get("k") == "Ref" and ue.get("d") == "local" and env is not None and path(ue) and env.defs.get(path(ue)[0]) is not None:
+        de = unwrap_all_casts(env.defs[path(ue)[0]])
+        if isinstance(de, dict) and de.get("k") == "Cond":
+            ue = de
+    if isinstance(ue, dict) and ue.get("k") == "Cond":
+        for keep, zero, neg in ((ue.get("a"), ue.get("b"), False), (ue.get("b"), ue.get("a"), True)):
+            if const_value(zero) == 0 and isinstance(keep, dict) and const_value(keep) is None:
+                cc = cond(ue["c"], env)
+                return f_and(f_not(cc) if neg else cc, nz_formula(keep, env))
     # bit test: x & Enum::b
     if isinstance(e, dict) and e.get("k") == "Bin" and e.get("op") == "&":
         for x, y in ((e["lhs"], e["rhs"]), (e["rhs"], e["lhs"])):
